@@ -53,6 +53,7 @@ Show(v) ==
     [] v.t = "fn"    -> IF v.kind = "iter" THEN "<iter>" ELSE "<func>"
     [] v.t = "errw"  -> "<err " \o v.kind \o ": " \o v.msg \o ">"
     [] v.t = "deferobj" -> "<DeferType>"
+    [] v.t = "view" -> "<view>"
     [] OTHER -> "<?>"
 
 (* ---------------------------- equality, truth --------------------------- *)
@@ -305,11 +306,13 @@ One(add, cal, recv, pos, kw, st) ==
 (* the elements a receiver's iterator yields *)
 RangeElems(i, stop, step) ==
   IF (step > 0 /\ i < stop) \/ (step < 0 /\ i > stop) THEN <<IntV(i)>> \o RangeElems(i + step, stop, step) ELSE <<>>
-HasElems(v) == \/ v.t \in {"arr", "int"}
+(* a "view" is a descendant of an array that answers _iter itself: chains visit what ITS iterator yields, not the array it descends from *)
+HasElems(v) == \/ v.t \in {"arr", "int", "view"}
                \/ v.t = "obj" /\ OwnProp(v, "_iter").found = FALSE /\ OwnProp(v, "next").found = FALSE
                \/ v.t = "range" /\ v.a.t = "int" /\ v.b.t = "int" /\ v.c.t \in {"int", "nil"} /\ (v.c.t = "nil" \/ v.c.i # 0)
 Elems(v) ==
   CASE v.t = "arr"   -> v.es
+    [] v.t = "view"  -> v.es
     [] v.t = "int"   -> [k \in 1..(IF v.i > 0 THEN v.i ELSE 0) |-> IntV(k)]
     [] v.t = "obj"   -> [k \in 1..Len(v.ps) |-> ArrV(<<StrV(v.ps[k].k), v.ps[k].v>>)]
     [] v.t = "range" -> RangeElems(v.a.i, v.b.i, IF v.c.t = "nil" THEN 1 ELSE v.c.i)
@@ -390,6 +393,8 @@ Ev(e, f, st) ==
     [] e.t = "arr"  -> LET r == EvElems(e.es, 1, f, st) IN IF r.k # "val" THEN r ELSE R("val", ArrV(r.v), r.st)
     [] e.t = "obj"  -> LET r == EvPairs(e.ps, 1, f, st) IN
                        IF r.k # "val" THEN r ELSE R("val", ObjV(SortPairs(r.st.names, r.v, 1)), r.st)
+    [] e.t = "view" -> LET r == EvList(<<e.base, e.els>>, 1, f, st) IN
+                       IF r.k # "val" THEN r ELSE IF r.v[2].t # "arr" THEN Unsupported(r.st) ELSE R("val", [t |-> "view", es |-> r.v[2].es], r.st)
     [] e.t = "range" -> LET r == EvList(<<e.a, e.b, e.c>>, 1, f, st) IN
                         IF r.k # "val" THEN r ELSE R("val", RangeV(r.v[1], r.v[2], r.v[3]), r.st)
     [] e.t = "estr" -> EvParts(e.parts, 1, f, st, "")
